@@ -338,6 +338,52 @@ pub fn run(run: &Run) {
         check_structure(run, l, "structures", i, eng, &expr, seed);
     });
 
+    // ---- every chain of up to 5 operator occurrences over and/xor/or: the tree
+    // is the one the documented precedence assigns (not > and > xor > or)
+    let eng0 = &envs[0];
+    let bools: Vec<usize> = eng0
+        .env
+        .fields
+        .iter()
+        .enumerate()
+        .filter(|(_, f)| f.ty == crate::rv::RType::Bool)
+        .map(|(i, _)| i)
+        .collect();
+    let mut nchains = 0u64;
+    let mut p3 = 3u64;
+    for _ in 1..=5 {
+        nchains += p3;
+        p3 *= 3;
+    }
+    run.exhaustive("chains", true);
+    run.parallel("chains", nchains, |i, l| {
+        let mut x = i;
+        let mut len = 1usize;
+        let mut block = 3u64;
+        while x >= block {
+            x -= block;
+            block *= 3;
+            len += 1;
+        }
+        let mut ops = Vec::new();
+        for _ in 0..len {
+            ops.push(LOG_OPS[(x % 3) as usize]);
+            x /= 3;
+        }
+        let operands: Vec<Expr> = (0..=len)
+            .map(|k| {
+                let c = Expr::Cmp(Path::field(bools[k % bools.len()]), CmpOp::IsTrue);
+                if (i >> k) & 1 == 1 {
+                    Expr::not(c)
+                } else {
+                    c
+                }
+            })
+            .collect();
+        let tree = super::c01::climb(&operands, &ops);
+        check_structure(run, l, "chains", i, eng0, &tree, seed);
+    });
+
     let n = run.opts.size(6_000, 400_000);
     run.parallel("mutations", n, |i, l| {
         let mut r = Rng::derive(seed, "c07-m", i);
